@@ -947,29 +947,40 @@ def replay(ctx, data):
 
 MANIFEST = dict(
     technique="Lean 4 refinement proof (association-list store of the keyword drivers vs the abstract finite map "
-              "(kind, number) -> entry; induction over arbitrary sequences of store operations) + differential "
-              "correspondence of random input histories on the real engine (DUMP -all, component list, error stops)",
+              "(kind, number) -> entry; induction over arbitrary sequences of store operations) + translator "
+              "(tools/gen_store.py -> Gen/StoreTables.lean: call order of one simulation, kind orders of the driver loops, "
+              "option vectors and case wiring of DELETE/RUN_CELLS/DUMP, KEY_x wiring of USE/SAVE/COPY; decide obligations) + "
+              "differential correspondence of random input histories on the real engine (DUMP -all, component list, stops)",
     text="Theorems (Properties/C14.lean over Model/Store.lean, Lemmas/Store.lean): find/put/erase laws of the std::map "
          "model; closed map-level forms of Rxn_copy, the chained Rxn_copies loop, the Rxn_copy loops, the COPY loop, "
          "DELETE, MODIFY; refines_map / refines_content for every sequence of store operations; other_kinds_untouched and "
-         "ops_commute_across_kinds; delete_exact, delete_all_exact; copy_content_eq (signed loop), "
-         "copy_content_eq_partial + the two counter-examples of the size_t loop; copy_then_write_independent (no "
-         "aliasing); range_define / save_overwrites (every number of a range is overwritten); modify_local; "
-         "use_reads_only; representation invariant (ascending keys, key = n_user) kept by every operation, "
-         "abs_injective (the concrete store holds nothing beyond the abstract map); components_superset. "
-         "Correspondence per RunString call: same (kind, number) set and order as pmodel store predicts, equal dump "
-         "text for entries the model gives the same content token (also across time: untouched entries stay "
-         "unchanged), descriptions, MODIFY changes only the named line, predicted 'not found' / input-error stops, "
-         "every element of every dumped entry is in GetComponent; RUN_CELLS on cell n vs USE of every reactant n + "
-         "SAVE n on the engine. Source facts re-read every run: loop variable type of the 11 loops of copy_entities "
-         "(selects the model variant), Rxn_copies vs Rxn_copy-loop fan-out in saver, loop shape of Rxn_copies.",
-    note="Trusted: harness/ph_store.cpp, the DUMP splitter / canonicalisation / comparison in tools/props/c14.py, and the "
-         "schedule of phases of one simulation in Model/Store.lean (readInput … deleteEntities): it is validated by the "
-         "correspondence, not proved against the C++; that every map mutation of the schedule is one of the proved "
-         "store operations is checked at run time by pmodel (maps = recorded operations applied to the empty store). "
-         "Content is an opaque token: what a calculation computes is outside the model; calls ending in other errors "
-         "or not finishing are counted, not judged. Left out of 'same content': KINETICS trailing -totals (refilled "
-         "by GetComponentCount), SOLUTION -viscosity/-viscos_0 (written back by initial surface/exchange "
-         "calculations that use the solution), EQUILIBRIUM_PHASES -eltList (rebuilt by tidy). Known departures "
-         "reported as findings: copy-range-negative-start, copy-range-runaway (size_t loop in copy_entities).",
+         "ops_commute_across_kinds; delete_exact, delete_all_exact; copy_content_eq and copy_content_eq_current (the loop "
+         "variable read from the source is signed: any range, negative numbers included), copy_content_eq_partial + "
+         "counter-examples for the former size_t loop; copy_then_write_independent; range_define / save_overwrites; "
+         "modify_local; use_reads_only; representation invariant kept by every operation, abs_injective; "
+         "components_superset. Against generated tables (re-decided every run): schedule_is_do_run / "
+         "schedule_is_run_simulations / schedule_split (DELETE after DUMP), kind orders of set_use, copy_use, saver (+ "
+         "fan-out kind), do_mixes, copy_entities, delete_entities, dump_ostream, list_components; delete_names_resolve, "
+         "delete_abbreviations, delete_options_all_wired, run_cells_option_resolves, dump_all_resolves, "
+         "dump_options_wired, use_copy_names_resolve, save_names_resolve. The option text of DELETE / RUN_CELLS is "
+         "resolved inside the model (find_option = lower-case prefix, first match, over the generated vectors). "
+         "Correspondence per RunString call: same (kind, number) set and order as pmodel store predicts, equal dump text "
+         "for entries the model gives the same content token (also across time), descriptions, MODIFY changes only the "
+         "named line, predicted stops ('not found', initial exchange/surface/gas solution missing, mix solution missing, "
+         "input errors), every element of every dumped entry is in GetComponent; the engine never rejects an option the "
+         "tables accept; RUN_CELLS on cell n vs USE of every reactant n + SAVE n on the engine; engine scratch numbers "
+         "(friend access) stay inside the reserved set {-1,-2,-5,-6}.",
+    note="Trusted: harness/ph_store.cpp, tools/gen_store.py (regex extraction, fails closed), the DUMP splitter / "
+         "canonicalisation / comparison in tools/props/c14.py, and the bodies of the phases in Model/Store.lean (their "
+         "ORDER is proved against the source, what each does is validated by the correspondence); that every map mutation "
+         "is one of the proved store operations is checked at run time by pmodel (maps = recorded operations applied to "
+         "the empty store). Content is an opaque token: what a calculation computes is outside the model (in particular "
+         "the entities the engine leaves under its scratch numbers are not predicted); calls ending in other errors or "
+         "not finishing are counted, not judged. Left out of 'same content': KINETICS trailing -totals (refilled by "
+         "GetComponentCount), SOLUTION -viscosity/-viscos_0 (written back by initial surface/exchange calculations), "
+         "EQUILIBRIUM_PHASES -eltList (rebuilt by tidy). Measured, not required: the component list equals the union over "
+         "the visible entries in ~89% of calls; the rest carries elements of entities under scratch numbers, which "
+         "DELETE of the visible entries does not remove (DELETE -all does). Selective DUMP options are tied by theorem "
+         "only (dump_options_wired); the observing dump is always -all. Known findings: crash-gas-phase-mixed-from-nothing, "
+         "crash-modify-of-empty-solid-solution.",
 )
